@@ -437,6 +437,361 @@ theorem svdwC_eq_svdwWith (a b Z c0 c1 c2 c3 c4 : F) (t : F) :
   rw [svdwPre_eq]
   rfl
 
+
+/-! ### Horner's rule, the isogeny map in projective form -/
+
+theorem polyEval_append (cs : List F) (l x : F) :
+    polyEval (fOps isSq sqrt sgn0) (cs ++ [l]) x = polyEval (fOps isSq sqrt sgn0) cs x + l * x ^ cs.length := by
+  induction cs with
+  | nil => simp [polyEval, fOps]
+  | cons c cs ih =>
+    have : polyEval (fOps isSq sqrt sgn0) (c :: (cs ++ [l])) x = c + polyEval (fOps isSq sqrt sgn0) (cs ++ [l]) x * x := rfl
+    rw [List.cons_append, this, ih]
+    have h2 : polyEval (fOps isSq sqrt sgn0) (c :: cs) x = c + polyEval (fOps isSq sqrt sgn0) cs x * x := rfl
+    rw [h2, List.length_cons, pow_succ]; ring
+
+theorem foldl_horner (rest : List F) (lead a : F) :
+    rest.foldl (fun c ci => (fOps isSq sqrt sgn0).add ((fOps isSq sqrt sgn0).mul c a) ci) lead =
+      polyEval (fOps isSq sqrt sgn0) (rest.reverse ++ [lead]) a := by
+  induction rest generalizing lead with
+  | nil => simp [polyEval, fOps]
+  | cons r rest ih =>
+    rw [List.foldl_cons, ih, List.reverse_cons, polyEval_append, polyEval_append, polyEval_append]
+    simp only [fOps, List.length_append, List.length_reverse, List.length_cons, List.length_nil, pow_succ]
+    ring
+
+/-- TMPL_MAP_HORNER (start from the leading coefficient, multiply and add downwards) evaluates Σ cᵢ xⁱ, for every
+    coefficient list and every argument -/
+theorem horner_eq_polyEval (cs : List F) (a : F) :
+    horner (fOps isSq sqrt sgn0) cs a = polyEval (fOps isSq sqrt sgn0) cs a := by
+  unfold horner
+  rcases h : cs.reverse with _ | ⟨lead, rest⟩
+  · have : cs = [] := by simpa using h
+    subst this; rfl
+  · simp only
+    rw [foldl_horner]
+    have : cs = rest.reverse ++ [lead] := by
+      have := congrArg List.reverse h
+      simpa using this
+    rw [this]
+
+/-- TMPL_MAP_ISOGENY_MAP (EP_ADD = PROJC): the projective triple (Nx·Dy : y·Ny·Dx : Dx·Dy) denotes the affine point
+    (xn/xd, y·yn/yd) of iso_map whenever both denominators are non-zero, and has Z = 0 exactly when iso_map is undefined -/
+theorem isoC_eq_isoMap (I : Iso F) (xy : F × F) :
+    let O := fOps isSq sqrt sgn0
+    (isoMap O I xy = none ↔ (isoC O I xy).2.2 = 0) ∧
+    ∀ q, isoMap O I xy = some q →
+      q.1 = (isoC O I xy).1 * ((isoC O I xy).2.2)⁻¹ ∧ q.2 = (isoC O I xy).2.1 * ((isoC O I xy).2.2)⁻¹ := by
+  intro O
+  simp only [O, isoMap, isoC, horner_eq_polyEval]
+  generalize polyEval (fOps isSq sqrt sgn0) I.xn xy.1 = nx
+  generalize polyEval (fOps isSq sqrt sgn0) I.xd xy.1 = dx
+  generalize polyEval (fOps isSq sqrt sgn0) I.yn xy.1 = ny
+  generalize polyEval (fOps isSq sqrt sgn0) I.yd xy.1 = dy
+  simp only [fOps, Bool.or_eq_true, decide_eq_true_eq]
+  constructor
+  · constructor
+    · intro h
+      split_ifs at h with h'
+      rcases h' with h' | h'
+      · rw [h', mul_zero]
+      · rw [h', zero_mul]
+    · intro h
+      rcases mul_eq_zero.mp h with h' | h'
+      · rw [if_pos (Or.inr h')]
+      · rw [if_pos (Or.inl h')]
+  · intro q hq
+    split_ifs at hq with h'
+    rw [not_or] at h'
+    obtain ⟨hx, hy⟩ := h'
+    have := Option.some.inj hq
+    subst this
+    constructor
+    · simp only; field_simp
+    · simp only; field_simp
+
 end maps
+
+
+/-! ### SwiftEC (a = 0) -/
+
+theorem three_square (nm : ∀ a b : F, ¬ IsSquare a → ¬ IsSquare b → IsSquare (a * b)) (x y w q : F)
+    (h : x * y = q * q * w) (hy : ¬ IsSquare y) (hw : ¬ IsSquare w) : IsSquare x := by
+  obtain ⟨s, hs⟩ := nm y w hy hw
+  have hy0 : y ≠ 0 := ne_zero_of_not_isSquare hy
+  have hw0 : w ≠ 0 := ne_zero_of_not_isSquare hw
+  have hs0 : s ≠ 0 := by
+    intro h0; rw [h0, mul_zero] at hs; exact (mul_ne_zero hy0 hw0) hs
+  exact isSquare_of_mul_sq (q := s) (r := q * w) hs0 (by linear_combination (-w) * h + x * hs)
+
+/-- the three SwiftEC candidates ((X/Y − u)/2, (−X/Y − u)/2, u + 4Y²) -/
+def swiftCand (b sm3 u t : F) : F × F × F :=
+  let X := (u * u * u + b - t * t) * (2 * t)⁻¹
+  let Y := (X + t) * (u * sm3)⁻¹
+  let r := X * Y⁻¹
+  ((r - u) * 2⁻¹, (-r - u) * 2⁻¹, u + 4 * (Y * Y))
+
+/-- SwiftEC, a = 0: off the exceptional parameters, if the third and the second candidate are not abscissae of the curve
+    then the first one is -/
+theorem swift_one_square (nm : ∀ a b : F, ¬ IsSquare a → ¬ IsSquare b → IsSquare (a * b)) (b sm3 u t : F)
+    (h2 : (2 : F) ≠ 0) (hs : sm3 * sm3 = -3) (hden : 2 * t * (u * sm3) * (u * u * u + b + t * t) ≠ 0)
+    (h3' : ¬ IsSquare (gF 0 b (swiftCand b sm3 u t).2.2)) (h2' : ¬ IsSquare (gF 0 b (swiftCand b sm3 u t).2.1)) :
+    IsSquare (gF 0 b (swiftCand b sm3 u t).1) := by
+  have ht : t ≠ 0 := fun h => hden (by rw [h]; ring)
+  have hu : u ≠ 0 := fun h => hden (by rw [h]; ring)
+  have hsm : sm3 ≠ 0 := fun h => hden (by rw [h]; ring)
+  have hsum : u * u * u + b + t * t ≠ 0 := right_ne_zero_of_mul hden
+  have h3 : (3 : F) ≠ 0 := by
+    intro h
+    have : sm3 * sm3 = 0 := by rw [hs, h, neg_zero]
+    exact hsm (mul_self_eq_zero.mp this)
+  have h4 : (4 : F) ≠ 0 := by
+    have : (4 : F) = 2 * 2 := by norm_num
+    rw [this]; exact mul_ne_zero h2 h2
+  have h8 : (8 : F) ≠ 0 := by
+    have : (8 : F) = 2 * 4 := by norm_num
+    rw [this]; exact mul_ne_zero h2 h4
+  unfold swiftCand at h3' h2' ⊢
+  simp only at h3' h2' ⊢
+  obtain ⟨c, hc⟩ : ∃ c, c = gF 0 b u := ⟨_, rfl⟩
+  have hcu : u * u * u + b = c := by rw [hc]; unfold gF; ring
+  rw [hcu] at hsum h3' h2' ⊢
+  obtain ⟨X, hXdef⟩ : ∃ X, X = (c - t * t) * (2 * t)⁻¹ := ⟨_, rfl⟩
+  rw [← hXdef] at h3' h2' ⊢
+  have hX : 2 * t * X = c - t * t := by
+    rw [hXdef]; field_simp
+  obtain ⟨Y, hYdef⟩ : ∃ Y, Y = (X + t) * (u * sm3)⁻¹ := ⟨_, rfl⟩
+  rw [← hYdef] at h3' h2' ⊢
+  have hY : Y * (u * sm3) = X + t := by
+    rw [hYdef]; field_simp
+  have hXt : X + t ≠ 0 := by
+    intro h
+    apply hsum
+    have : 2 * t * (X + t) = c + t * t := by linear_combination hX
+    rw [← this, h, mul_zero]
+  have hY0 : Y ≠ 0 := by
+    rw [hYdef]; exact mul_ne_zero hXt (inv_ne_zero (mul_ne_zero hu hsm))
+  obtain ⟨r, hrdef⟩ : ∃ r, r = X * Y⁻¹ := ⟨_, rfl⟩
+  rw [← hrdef] at h2' ⊢
+  have hr : r * Y = X := by rw [hrdef]; field_simp
+  have conic : X ^ 2 + 3 * u ^ 2 * Y ^ 2 = -c := by
+    linear_combination (-1) * hX - (Y * (u * sm3) + X + t) * hY + Y ^ 2 * u ^ 2 * hs
+  by_cases hc0 : c = 0
+  · -- g(u) = 0: the second candidate is u times a primitive cube root of unity, g vanishes there
+    exfalso
+    apply h2'
+    obtain ⟨x2, hx2def⟩ : ∃ x2, x2 = (-r - u) * 2⁻¹ := ⟨_, rfl⟩
+    rw [← hx2def]
+    have h2X : 2 * X = -t := by
+      have : t * (2 * X + t) = 0 := by linear_combination hX + hc0
+      rcases mul_eq_zero.mp this with h | h
+      · exact absurd h ht
+      · linear_combination h
+    have hrr : r = -(u * sm3) := by
+      have : (2 * Y) * (r + u * sm3) = 0 := by linear_combination 2 * hr + 2 * hY + 2 * h2X
+      rcases mul_eq_zero.mp this with h | h
+      · exact absurd h (mul_ne_zero h2 hY0)
+      · linear_combination h
+    have hx2 : 2 * x2 = u * sm3 - u := by
+      rw [hx2def, hrr]; field_simp
+    have e8 : 8 * (x2 ^ 3 - u ^ 3) = 0 := by
+      linear_combination ((2 * x2) ^ 2 + 2 * x2 * (u * sm3 - u) + (u * sm3 - u) ^ 2) * hx2 + u ^ 3 * (sm3 - 3) * hs
+    have e : x2 ^ 3 - u ^ 3 = 0 := (mul_eq_zero.mp e8).resolve_left h8
+    have : gF 0 b x2 = 0 := by
+      unfold gF
+      have : c = u ^ 3 + 0 * u + b := by rw [hc]; rfl
+      linear_combination e + hc0 - this
+    rw [this]; exact IsSquare.zero
+  · obtain ⟨z, hzdef⟩ : ∃ z, z = u * 2⁻¹ := ⟨_, rfl⟩
+    have hz : u = 2 * z := by rw [hzdef]; field_simp
+    have hz0 : z ≠ 0 := by rw [hzdef]; exact mul_ne_zero hu (inv_ne_zero h2)
+    obtain ⟨m, hmdef⟩ : ∃ m, m = r * 2⁻¹ := ⟨_, rfl⟩
+    obtain ⟨W, hWdef⟩ : ∃ W, W = 2 * Y := ⟨_, rfl⟩
+    have hW0 : W ≠ 0 := by rw [hWdef]; exact mul_ne_zero h2 hY0
+    have hd0 : 3 * z ^ 2 + (0 : F) ≠ 0 := by
+      rw [add_zero]; exact mul_ne_zero h3 (pow_ne_zero 2 hz0)
+    obtain ⟨d, hddef⟩ : ∃ d, d = 3 * z ^ 2 + (0 : F) := ⟨_, rfl⟩
+    rw [← hddef] at hd0
+    obtain ⟨R, hRdef⟩ : ∃ R, R = -c / (d * W ^ 2) := ⟨_, rfl⟩
+    have hR0 : R ≠ 0 := by
+      rw [hRdef]; exact div_ne_zero (neg_ne_zero.mpr hc0) (mul_ne_zero hd0 (pow_ne_zero 2 hW0))
+    have hmW : m * W = X := by
+      rw [hmdef, hWdef]
+      have : (2 : F)⁻¹ * 2 = 1 := inv_mul_cancel₀ h2
+      linear_combination hr + r * Y * this
+    have hdW : d * W ^ 2 = 3 * u ^ 2 * Y ^ 2 := by
+      rw [hddef, hWdef, hz]; ring
+    have hm : m ^ 2 = -d * (1 - R) := by
+      have e : -d * (1 - R) = (-(d * W ^ 2) - c) / W ^ 2 := by
+        rw [hRdef]; field_simp; ring
+      rw [e, hdW, eq_div_iff (pow_ne_zero 2 hW0)]
+      linear_combination (m * W + X) * hmW + conic
+    have hx3 : u + 4 * (Y * Y) = u - c / (d * R) := by
+      rw [hRdef, hWdef]; field_simp; ring
+    have hkey := sw_key u 0 b z m R hz (by rw [← hddef]; exact hd0) (by rw [← hc]; exact hc0) hR0
+      (by rw [← hddef]; exact hm)
+    rw [← hddef, ← hc] at hkey
+    have e1 : (r - u) * 2⁻¹ = -z + m := by rw [hzdef, hmdef]; ring
+    have e2 : (-r - u) * 2⁻¹ = -z - m := by rw [hzdef, hmdef]; ring
+    rw [e1]
+    rw [e2] at h2'
+    rw [hx3] at h3'
+    have hq : -(d ^ 3 * R ^ 3 / c) = (c / W ^ 3) * (c / W ^ 3) := by
+      rw [hRdef]; field_simp
+    rw [hq] at hkey
+    exact three_square nm _ _ _ _ (by rw [mul_comm]; exact hkey) h2' h3'
+
+
+section swiftmaps
+variable (isSq : F → Bool) (sqrt : F → F) (sgn0 : F → Bool)
+
+/-- the abscissa SwiftEC selects among the candidates: x3 over x2 over x1 -/
+def swiftPick (b : F) (c : F × F × F) : F :=
+  if isSq (gF 0 b c.2.2) then c.2.2 else if isSq (gF 0 b c.2.1) then c.2.1 else c.1
+
+theorem swiftX_unfold (b sm3 u t : F) :
+    swiftX (fOps isSq sqrt sgn0) ⟨0, b⟩ sm3 u t =
+      if 2 * t * (u * sm3) * (u * u * u + b + t * t) = 0 then none
+      else some (swiftPick isSq b (swiftCand b sm3 u t)) := by
+  have e2 : (1 + 1 : F) = 2 := by norm_num
+  have e4 : (2 + 2 : F) = 4 := by norm_num
+  simp only [swiftX, swiftPick, swiftCand, g_eq]
+  simp only [fOps, e2, e4, decide_eq_true_eq]
+  split_ifs <;> simp_all
+
+/-- SwiftEC (a = 0): whenever the parameters are not exceptional the output satisfies the curve equation -/
+theorem swift_on_curve (H : Oracle isSq sqrt) (b sm3 u t : F) (s : Bool) (h2 : (2 : F) ≠ 0) (hs : sm3 * sm3 = -3)
+    (xy : F × F) (h : swift (fOps isSq sqrt sgn0) ⟨0, b⟩ sm3 u t s = some xy) :
+    xy.2 * xy.2 = gF 0 b xy.1 := by
+  unfold swift at h
+  rw [swiftX_unfold] at h
+  split_ifs at h with hden
+  simp only [Option.some.injEq] at h
+  subst h
+  have hsq : IsSquare (gF 0 b (swiftPick isSq b (swiftCand b sm3 u t))) := by
+    unfold swiftPick
+    split_ifs with h3 h2'
+    · exact (H.isSq_iff _).mp h3
+    · exact (H.isSq_iff _).mp h2'
+    · exact swift_one_square H.nonsq_mul b sm3 u t h2 hs hden (H.not_sq h3) (H.not_sq h2')
+  simp only [g_eq]
+  have hy := H.sqrt_sq _ hsq
+  split_ifs
+  · simp only [fOps]; rw [neg_mul_neg]; exact hy
+  · exact hy
+
+/-- the a = 0 branch of ep_map_swift_impl (h0 … h8, n1, n2, d1, one inversion) computes the three SwiftEC candidates, and
+    detects exactly the exceptional parameters -/
+theorem swiftC_eq (b tau u t : F) (h2 : (2 : F) ≠ 0) :
+    swiftC (fOps isSq sqrt sgn0) b tau u t =
+      if 2 * t * (u * tau) * (u * u * u + b + t * t) = 0 then none else some (swiftCand b tau u t) := by
+  simp only [swiftC, swiftCand]
+  simp only [fOps, decide_eq_true_eq]
+  have hw : (t * t + t * t + (u * u * u + b - t * t)) * (u * tau * t + u * tau * t) +
+      (t * t + t * t + (u * u * u + b - t * t)) * (u * tau * t + u * tau * t) =
+      2 * (2 * t * (u * tau) * (u * u * u + b + t * t)) := by ring
+  rw [hw]
+  by_cases hden : 2 * t * (u * tau) * (u * u * u + b + t * t) = 0
+  · rw [if_pos hden, if_pos (by rw [hden, mul_zero])]
+  · rw [if_neg hden, if_neg (mul_ne_zero h2 hden)]
+    have ht : t ≠ 0 := fun h => hden (by rw [h]; ring)
+    have hu : u ≠ 0 := fun h => hden (by rw [h]; ring)
+    have hta : tau ≠ 0 := fun h => hden (by rw [h]; ring)
+    have hsum : u * u * u + b + t * t ≠ 0 := right_ne_zero_of_mul hden
+    obtain ⟨S, hS⟩ : ∃ S, S = u * u * u + b + t * t := ⟨_, rfl⟩
+    have hub : u * u * u + b = S - t * t := by rw [hS]; ring
+    rw [← hS] at hsum ⊢
+    rw [hub]
+    have hXt : (S - t * t - t * t) * (2 * t)⁻¹ + t = S * (2 * t)⁻¹ := by
+      field_simp; ring
+    have hY0 : ((S - t * t - t * t) * (2 * t)⁻¹ + t) * (u * tau)⁻¹ ≠ 0 := by
+      rw [hXt]
+      exact mul_ne_zero (mul_ne_zero hsum (inv_ne_zero (mul_ne_zero h2 ht))) (inv_ne_zero (mul_ne_zero hu hta))
+    have hh3 : t * t + t * t + (S - t * t - t * t) = S := by ring
+    rw [hh3]
+    congr 1
+    refine Prod.ext ?_ (Prod.ext ?_ ?_)
+    · simp only; rw [hXt]; field_simp; ring
+    · simp only; rw [hXt]; field_simp; ring
+    · simp only; rw [hXt]; field_simp; ring
+
+/-- the candidate selection, square root and sign of ep_map_swift_impl = the SwiftEC specification -/
+theorem swiftSelC_eq (b : F) (c : F × F × F) (s : Bool) :
+    swiftSelC (fOps isSq sqrt sgn0) 0 b c s =
+      (swiftPick isSq b c,
+        if sgn0 (sqrt (gF 0 b (swiftPick isSq b c))) == s then -(sqrt (gF 0 b (swiftPick isSq b c)))
+        else sqrt (gF 0 b (swiftPick isSq b c))) := by
+  simp only [swiftSelC, swiftSelPre, swiftPick, rhsC_eq]
+  simp only [fOps]
+  by_cases h3 : isSq (gF 0 b c.2.2) = true <;> by_cases h2 : isSq (gF 0 b c.2.1) = true <;>
+    simp only [h3, h2, Bool.false_eq_true, if_true, if_false] <;>
+    (congr 1; cases sgn0 (sqrt _) <;> cases s <;> rfl)
+
+/-- ep_map_swift_impl (a = 0 branch; the exceptional parameters mapped to `none` = the point at infinity the code sets)
+    = the SwiftEC specification, for every (u, t, s) -/
+theorem swiftC_eq_swift (b tau u t : F) (s : Bool) (h2 : (2 : F) ≠ 0) :
+    (swiftC (fOps isSq sqrt sgn0) b tau u t).map (fun c => swiftSelC (fOps isSq sqrt sgn0) 0 b c s) =
+      swift (fOps isSq sqrt sgn0) ⟨0, b⟩ tau u t s := by
+  unfold swift
+  rw [swiftC_eq isSq sqrt sgn0 b tau u t h2, swiftX_unfold]
+  split_ifs
+  · rfl
+  · simp only [Option.map_some, swiftSelC_eq, g_eq]
+    rfl
+
+end swiftmaps
+
+/-! ### cofactor clearing, try-and-increment -/
+
+/-- clear_cofactor: in a group whose elements are killed by h·r, the multiple h·P is killed by r -/
+theorem clear_cofactor_torsion {G : Type} [AddCommGroup G] (h r : ℕ) (P : G) (hP : (h * r) • P = 0) :
+    r • (h • P) = 0 := by
+  rw [← mul_smul, mul_comm]; exact hP
+
+/-- the predicate the try-and-increment loop tests (fp_smb(g(x)) = 1): g(x) is a non-zero square -/
+def goodX (p a b x : Nat) : Prop := (x * x % p * x + a * x + b) % p ≠ 0 ∧ isSqMod p ((x * x % p * x + a * x + b) % p) = true
+
+instance (p a b x : Nat) : Decidable (goodX p a b x) := by unfold goodX; infer_instance
+
+theorem tryIncrement_some (p a b : Nat) : ∀ (fuel x r : Nat), tryIncrement p a b fuel x = some r → goodX p a b r := by
+  intro fuel
+  induction fuel with
+  | zero => intro x r h; simp [tryIncrement] at h
+  | succ n ih =>
+    intro x r h
+    unfold tryIncrement at h
+    simp only at h
+    split_ifs at h with hg
+    · have := Option.some.inj h; subst this; exact hg
+    · exact ih _ _ h
+
+theorem tryIncrement_none (p a b : Nat) (hp : 0 < p) : ∀ (fuel x : Nat), x < p → tryIncrement p a b fuel x = none →
+    ∀ k, k < fuel → ¬ goodX p a b ((x + k) % p) := by
+  intro fuel
+  induction fuel with
+  | zero => intro x _ _ k hk; omega
+  | succ n ih =>
+    intro x hx h k hk
+    unfold tryIncrement at h
+    simp only at h
+    split_ifs at h with hg
+    rcases k with _ | k
+    · rw [Nat.add_zero, Nat.mod_eq_of_lt hx]; exact hg
+    · have := ih ((x + 1) % p) (Nat.mod_lt _ hp) h k (by omega)
+      rw [Nat.mod_add_mod] at this
+      rw [show x + (k + 1) = x + 1 + k by omega]
+      exact this
+
+/-- try-and-increment terminates: started anywhere in [0, p) with fuel p it visits every residue, so it returns an abscissa
+    (with a non-zero square value of g) as soon as one exists -/
+theorem tryIncrement_terminates (p a b x0 y : Nat) (hx : x0 < p) (hy : y < p) (hg : goodX p a b y) :
+    ∃ r, tryIncrement p a b p x0 = some r ∧ goodX p a b r := by
+  have hp : 0 < p := by omega
+  rcases h : tryIncrement p a b p x0 with _ | r
+  · exfalso
+    have := tryIncrement_none p a b hp p x0 hx h ((y + p - x0) % p) (Nat.mod_lt _ hp)
+    rw [Nat.add_mod_mod, show x0 + (y + p - x0) = y + p by omega, Nat.add_mod_right, Nat.mod_eq_of_lt hy] at this
+    exact this hg
+  · exact ⟨r, rfl, tryIncrement_some p a b p x0 r h⟩
 
 end Relic.Lemmas.MapToCurve
